@@ -69,7 +69,7 @@ def search(ctx: Ctx) -> Result:
 
 
 SPEC = PropSpec(
-    prop='C05', translators=['deciderfrag'], run=run, search=search,
+    prop='C05', extra_props=['C05All'], translators=['deciderfrag'], run=run, search=search,
     rule='singleton families (a merged SYNC naming the sender\'s finished run and the receiver\'s adopted run; random fault schedules over singleton patterns), merged-backlog family (one failed or unacknowledged send, then the run finishes, then the merged SYNC; 2 and 3 instances), '
          'the C04 racing-pair family, and seeded random schedules with and without link faults and clock advances (8-40 ops, 2-3 '
          'instances); the oracle runs after every elementary step including each pass and delivery inside sync/heal',
